@@ -100,11 +100,11 @@ func (a mapAdapter) Delete(k int) { a.m.Delete(keyName(k)) }
 func (a mapAdapter) Range(fn func(k, v int) bool) {
 	a.m.Range(func(k string, v interface{}) bool { return fn(keyIndex(k), unboxV(v)) })
 }
-func (a mapAdapter) Clear()                    { a.m.Clear() }
-func (a mapAdapter) Size() int                 { return a.m.Size() }
-func (a mapAdapter) Stats() xsync.MapStats     { return a.m.Stats() }
-func (a mapAdapter) Chain(b int) []string      { return a.m.VerifChain(b) }
-func (a mapAdapter) RootBuckets() int          { return a.m.VerifRootBuckets() }
+func (a mapAdapter) Clear()                { a.m.Clear() }
+func (a mapAdapter) Size() int             { return a.m.Size() }
+func (a mapAdapter) Stats() xsync.MapStats { return a.m.Stats() }
+func (a mapAdapter) Chain(b int) []string  { return a.m.VerifChain(b) }
+func (a mapAdapter) RootBuckets() int      { return a.m.VerifRootBuckets() }
 
 func newMapAdapter(l Layout, opts ...func(*xsync.MapConfig)) MapLike {
 	xsync.VerifSeed = func() uint64 { return 1 }
